@@ -22,6 +22,9 @@ type pgpRegion struct {
 	lo, hi int   // byte range in the binary (unarmored) key
 }
 
+// thirdPartyCerts: when set, buildPGP adds a certification by a foreign key after the self-signature of every identity
+var thirdPartyCerts *pgpKeyMat
+
 type pgpIdentity struct {
 	name             string
 	flags            int
@@ -109,8 +112,14 @@ func buildPGP(primary *pgpKeyMat, ids []pgpIdentity, subs []pgpSubkey, unhashedI
 			pgpRegion{"hashed", fmt.Sprintf("id%d", i), so + sig.hashedOff[0], so + sig.hashedOff[1]},
 			pgpRegion{"prefix", fmt.Sprintf("id%d", i), so + sig.prefixOff, so + sig.prefixOff + 2})
 		b.regions = append(b.regions, mpiValueRegions(fmt.Sprintf("id%d", i), sig.body, sig.mpiOff, so)...)
+		if thirdPartyCerts != nil {
+			// a certification by someone else's key (type 0x10): says nothing about usage, creation or expiry of this key
+			tp := makeSig(thirdPartyCerts, pgpSigSpec{sigType: 0x10, created: id.sigCreated + 86400*400, flags: -1, lifetime: -1, issuerID: pgpKeyID(thirdPartyCerts.body)},
+				append(frameKey(primary.body), frameUID(id.name)...))
+			add(2, tp.body)
+		}
 		exp := "never"
-		if id.lifetime >= 0 {
+		if id.lifetime > 0 { // RFC 4880 5.2.3.6: absent or zero = the key never expires
 			exp = dateUTC(int64(primary.created) + id.lifetime)
 		}
 		b.gt = append(b.gt, hxs(id.name), hxsOrDash(usageString(id.flags)), hxs(dateUTC(int64(id.sigCreated))), hxs(exp))
@@ -132,7 +141,7 @@ func buildPGP(primary *pgpKeyMat, ids []pgpIdentity, subs []pgpSubkey, unhashedI
 			pgpRegion{"prefix", fmt.Sprintf("sub%d", i), so + sig.prefixOff, so + sig.prefixOff + 2})
 		b.regions = append(b.regions, mpiValueRegions(fmt.Sprintf("sub%d", i), sig.body, sig.mpiOff, so)...)
 		exp := "never"
-		if s.lifetime >= 0 {
+		if s.lifetime > 0 {
 			exp = dateUTC(int64(s.key.created) + s.lifetime)
 		}
 		b.gt = append(b.gt, keyGT(s.key)...)
@@ -172,6 +181,10 @@ func pgpKeyFactories() []func(created uint32) *pgpKeyMat {
 func init() {
 	gens["C12"] = genC12
 	// pgp <binary key, armored by the op> G …: the public-key block inspected as a file
+	// pgpsec <binary secret key> G …: the same through the private-key block parser
+	ops["pgpsec"] = func(a []string) string {
+		return resInfo(file.PGPPrivateKey(file.Info{}, pgpArmor("PGP PRIVATE KEY BLOCK", unhx(a[0]))))
+	}
 	ops["pgp"] = func(a []string) string {
 		return resInfo(file.PGPPublicKey(file.Info{}, pgpArmor("PGP PUBLIC KEY BLOCK", unhx(a[0]))))
 	}
@@ -225,7 +238,57 @@ func randomPGP(r *rng, kdfExtra []byte) pgpBuilt {
 	return buildPGP(primary, ids, subs, r.intn(3) == 0)
 }
 
+// secretVariant turns the public key block into an UNPROTECTED secret key block (S2K usage 0): packets 6 / 14 become 5 / 7
+// with secret material appended.  The report must be the same as for the public block.
+func secretVariant(b pgpBuilt, r *rng) []byte {
+	var out []byte
+	for off := 0; off < len(b.binary); {
+		h := b.binary[off]
+		tag := (h >> 2) & 15
+		var n, hl int
+		switch h & 3 {
+		case 0:
+			n, hl = int(b.binary[off+1]), 2
+		case 1:
+			n, hl = int(b.binary[off+1])<<8|int(b.binary[off+2]), 3
+		default:
+			n, hl = int(b.binary[off+1])<<24|int(b.binary[off+2])<<16|int(b.binary[off+3])<<8|int(b.binary[off+4]), 5
+		}
+		body := b.binary[off+hl : off+hl+n]
+		switch tag {
+		case 6, 14:
+			secret := pgpMPI(r.bytes(32))
+			if sec, ok := pgpSecretOf[string(body)]; ok { // RSA: the parser validates d, p, q, u against n
+				secret = sec
+			}
+			nt := byte(5)
+			if tag == 14 {
+				nt = 7
+			}
+			out = append(out, pgpPacket(nt, secretKeyPacketBody(body, secret))...)
+		default:
+			out = append(out, b.binary[off:off+hl+n]...)
+		}
+		off += hl + n
+	}
+	return out
+}
+
 func genC12(tier string, r *rng) {
+	// keys that carry certifications by other people's keys, and unprotected secret-key blocks (incl. ECDH subkeys)
+	{
+		fs := pgpKeyFactories()
+		thirdPartyCerts = fs[3](1600000000)
+		for k := 0; k < 6; k++ {
+			b := randomPGP(r, nil)
+			emit("pgp", append([]string{hx(b.binary), "G"}, b.gt...)...)
+		}
+		thirdPartyCerts = nil
+		for k := 0; k < 12; k++ {
+			b := randomPGP(r, nil)
+			emit("pgpsec", append([]string{hx(secretVariant(b, r)), "G"}, b.gt...)...)
+		}
+	}
 	genPgpFrames(tier, r)
 	n := 150
 	if tier == "thorough" {
